@@ -159,5 +159,173 @@ def World.storeAt (w : World) (t : Nat) : Option Store := w.hist.reverse[t]?
 /-- entries WAL recovery returns after a crash that leaves `st` -/
 def durable (fmt : Format) (crc : Bytes → Nat) (st : Store) : List Entry := recoverAll fmt crc (crashImage st)
 
+/-! ## the other fsync policies (`run_everysec_mode`, `run_no_mode`)
+
+  `FsyncPolicy::EverySecond`: a `Write` is appended and answered AT ONCE with the result of the
+  append (`entries_since_sync` counts the successful ones); a `SyncTick` calls `rotator.sync()` when
+  anything was appended since the last tick, only LOGS a failure, and resets the counter either
+  way; `Shutdown` does the same once more and stops.  `FsyncPolicy::No`: append and answer, never
+  an explicit fsync; `SyncTick` is a no-op.  Both run on the current rotator (which fsyncs a file
+  when it rotates away from it).  There is no group-commit flush in these modes: `Ev.flush` is not
+  an event of theirs (a no-op here). -/
+
+inductive Policy where
+  | always
+  | everySecond
+  | no
+  deriving DecidableEq, Repr, Inhabited
+
+/-- `Write` in EverySecond / No mode: append, answer (if anybody listens) with the append's result -/
+def Actor.handleWriteNow (count acked : Bool) (φ : Nat → Outcome) (fmt : Format) (crc : Bytes → Nat)
+    (a : Actor) (w : Write) : Actor :=
+  let e := Entry.mk' fmt crc w.data w.ts
+  match Rot.append true fmt φ a.rot e with
+  | (r, none) =>
+    { a with rot := r, esync := if count then a.esync + 1 else a.esync,
+             acks := if acked then ⟨w.id, e, .ok, r.w.io⟩ :: a.acks else a.acks }
+  | (r, some x) =>
+    { a with rot := r, acks := if acked then ⟨w.id, e, .err x, r.w.io⟩ :: a.acks else a.acks }
+
+/-- `SyncTick` in EverySecond mode (also the final sync of `Shutdown`): the result of
+    `rotator.sync()` is only logged -/
+def Actor.tickEverySec (φ : Nat → Outcome) (a : Actor) : Actor :=
+  if a.esync = 0 then a else { a with rot := (Rot.sync true φ a.rot).1, esync := 0 }
+
+/-- incarnation boundary in EverySecond / No mode (nobody is ever left waiting for an ack) -/
+def Actor.reopenNow (finalSync : Bool) (φ : Nat → Outcome) (crash reuse : Bool) (a : Actor) : Actor :=
+  if crash then
+    let w' := a.rot.w.push (crashStore a.rot.w.store) .crash
+    { a with rot := Rot.reopen reuse { a.rot with w := w' }, pending := [], esync := 0 }
+  else
+    let a1 := if finalSync then Actor.tickEverySec φ a else a
+    { a1 with rot := Rot.reopen reuse a1.rot, esync := 0 }
+
+def Actor.stepP (p : Policy) (φ : Nat → Outcome) (fmt : Format) (crc : Bytes → Nat) (a : Actor) (ev : Ev) : Actor :=
+  match p with
+  | .always => Actor.step true false φ fmt crc a ev
+  | .everySecond =>
+    match ev with
+    | .write w => Actor.handleWriteNow true true φ fmt crc a w
+    | .forget w => Actor.handleWriteNow true false φ fmt crc a w
+    | .tick => Actor.tickEverySec φ a
+    | .truncate T => Actor.handleTruncate φ fmt crc a T
+    | .flush => a
+    | .reopen crash reuse => Actor.reopenNow true φ crash reuse a
+  | .no =>
+    match ev with
+    | .write w => Actor.handleWriteNow false true φ fmt crc a w
+    | .forget w => Actor.handleWriteNow false false φ fmt crc a w
+    | .tick => a
+    | .truncate T => Actor.handleTruncate φ fmt crc a T
+    | .flush => a
+    | .reopen crash reuse => Actor.reopenNow false φ crash reuse a
+
+def Actor.runP (p : Policy) (φ : Nat → Outcome) (fmt : Format) (crc : Bytes → Nat) (maxSize : Nat)
+    (evs : List Ev) : Actor :=
+  evs.foldl (Actor.stepP p φ fmt crc) (Actor.init maxSize)
+
+/-- `WalConfig` (wal_config.rs): what the constructors produce (durations in µs / ms) -/
+structure Config where
+  enabled : Bool
+  policy : Policy
+  maxFileSize : Nat
+  maxEntries : Nat
+  maxWaitUs : Nat
+  truncIntervalMs : Nat
+  deriving DecidableEq, Repr
+
+/-- `WalConfig::default()` -/
+def Config.default : Config :=
+  { enabled := false, policy := .everySecond, maxFileSize := 64 * 1024 * 1024, maxEntries := 64,
+    maxWaitUs := 200, truncIntervalMs := 30000 }
+
+/-- `WalConfig::test()` -/
+def Config.test : Config :=
+  { enabled := true, policy := .always, maxFileSize := 64 * 1024, maxEntries := 8, maxWaitUs := 50,
+    truncIntervalMs := 100 }
+
+/-- `WalConfig::always_fsync(dir)` -/
+def Config.alwaysFsync : Config := { Config.default with enabled := true, policy := .always }
+
+/-- `WalConfig::every_second(dir)` -/
+def Config.everySecondCfg : Config := { Config.default with enabled := true, policy := .everySecond }
+
+/-- the serde names of `FsyncPolicy` (the configuration file / JSON spelling) -/
+def Policy.ofName : String → Option Policy
+  | "Always" => some .always
+  | "EverySecond" => some .everySecond
+  | "No" => some .no
+  | _ => none
+
+/-- the Always-mode history that drives the rotator exactly like an EverySecond history does: a
+    tick that syncs is a group-commit flush (whose acks nobody hears) -/
+def Ev.asAlways : Ev → Ev
+  | .tick => .flush
+  | .flush => .tick      -- no such event in EverySecond mode: a no-op there, and a tick is a no-op in Always mode
+  | .write w => .write w
+  | .forget w => .forget w
+  | .truncate T => .truncate T
+  | .reopen c r => .reopen c r
+
+/-! ## the schedule of `run_always_mode`, `Shutdown` messages included
+
+  Where the loop is when it takes a message decides what a `Shutdown` does: at the TOP of the loop
+  (`recv().await`) or in the DRAIN loop (`try_recv`) it ends the actor (after a final flush); inside the
+  group-commit wait (`timeout(.., async { while .. recv().await .. })`, phase BLOCK) the `return` only
+  leaves the async block — the actor flushes, answers the shutdown request, and goes on.  After the
+  first message the loop enters the wait iff `0 < entries_since_sync < max_entries`, otherwise the
+  drain loop (iff `entries_since_sync < max_entries`); reaching `max_entries` flushes and goes back to
+  the top.  Once the actor has stopped nobody handles the remaining messages: a `write_durable` caller
+  gets an I/O error ("actor unavailable" / "dropped ack channel"). -/
+
+/-- a mailbox message: an event of the model, a message that changes nothing (a truncation whose
+    `store.list()` fails: logged), or `Shutdown` -/
+inductive Msg where
+  | ev (e : Ev)
+  | noop
+  | shutdown
+  deriving Repr
+
+inductive Phase where
+  | top | block | drain
+  deriving DecidableEq, Repr
+
+structure Sched where
+  a : Actor
+  phase : Phase := .top
+  alive : Bool := true
+  /-- `write_durable` callers whose message was never handled -/
+  dropped : List Nat := []
+
+def Msg.ids : Msg → List Nat
+  | .ev (.write w) => [w.id]
+  | _ => []
+
+def Sched.step (maxEntries : Nat) (φ : Nat → Outcome) (fmt : Format) (crc : Bytes → Nat) (s : Sched) (m : Msg) : Sched :=
+  if !s.alive then { s with dropped := s.dropped ++ m.ids } else
+  match m with
+  | .shutdown =>
+    let a1 := Actor.flush true φ s.a
+    (match s.phase with
+    | .block => { s with a := a1, phase := .drain }
+    | _ => { s with a := a1, alive := false })
+  | m =>
+    let a1 := match m with
+      | .ev e => Actor.step true false φ fmt crc s.a e
+      | _ => s.a
+    if maxEntries ≤ a1.esync then { s with a := Actor.flush true φ a1, phase := .top }
+    else
+      (match s.phase with
+      | .top => { s with a := a1, phase := if a1.esync = 0 then .drain else .block }
+      | ph => { s with a := a1, phase := ph })
+
+/-- the mailbox ran empty: the wait times out / the drain loop breaks, what is pending is flushed -/
+def Sched.endBurst (φ : Nat → Outcome) (s : Sched) : Sched :=
+  if s.alive then { s with a := Actor.flush true φ s.a, phase := .top } else s
+
+def Sched.runBursts (maxEntries : Nat) (φ : Nat → Outcome) (fmt : Format) (crc : Bytes → Nat) (s : Sched)
+    (bursts : List (List Msg)) : Sched :=
+  bursts.foldl (fun s g => Sched.endBurst φ (g.foldl (Sched.step maxEntries φ fmt crc) s)) s
+
 end Wal
 end RedisVerif
